@@ -169,6 +169,10 @@ def _hostile_cases(ctx, fx):
     rm, rf = by_ft["rtf"]
     for i, d in enumerate(corpus.rtf_token_docs(rng, ctx.n(500, 6000))):
         cases.append((f"rtfgrammar:{i}", rm, rf, d))
+    # 7z archives with a mutated header block and recomputed checksums (the header parser is the library's own code)
+    am, af = by_ft["7z"] if "7z" in by_ft else by_ft.get("zip")
+    for label, d in corpus.sevenzip_header_mutants(rng, n_random=ctx.n(40, 400), exhaustive=ctx.thorough):
+        cases.append((label, am, af, d))
     # tiny synthetic inputs for every extractor
     tiny = [b"", b"\x00", b"PK", b"PK\x03\x04", b"\xd0\xcf\x11\xe0\xa1\xb1\x1a\xe1", b"%PDF-1.4", b"{\\rtf1", b"From a\n", b"<", b"7z\xbc\xaf\x27\x1c",
             b"\xff\xfe", b"\xef\xbb\xbf", b"\x1f\x8b", b"BZh", b"\xfd7zXZ\x00", b"PK\x05\x06" + b"\x00" * 18, b"{\\rtf1 \\u-10179?\\u-8704?}", b"\xd0\xcf\x11\xe0\xa1\xb1\x1a\xe1" + b"\x00" * 600]
@@ -215,6 +219,69 @@ def _hostile_stream(ctx, fx):
                 broken.append(Broken("correspondence", "c01.surface", f"{label}: {kind} {info} {rep} escaped {f} (model: impossible)",
                                      case={"kind": "bytes", "extractor": [m, f], "label": label, "data_b64": base64.b64encode(data).decode()}))
     ctx.sample({"hostile_cases": len(cases), "example_labels": [c[0] for c in cases[:: max(1, len(cases) // 5)]][:6]})
+    return broken
+
+
+
+# ----------------------------------------------------------------------------- read_file entry point
+def _read_file_once(ext, data):
+    """-> None | reason.  The bytes are written to <tmp>/f.<ext> and consumed through sharepoint2text.read_file"""
+    import sharepoint2text
+    with tempfile.TemporaryDirectory(prefix="s2t_c01rf_") as td:
+        p = os.path.join(td, "f." + ext)
+        with open(p, "wb") as fh:
+            fh.write(data)
+        r = corpus.run_extractor(lambda fobj, path: sharepoint2text.read_file(p), data, path=None, limit_s=LIMIT_S)
+    if r[0] == "other":
+        return f"read_file(f.{ext}) let {r[1]} escape ({r[2]}) — not an ExtractionError subclass"
+    if r[0] == "hang":
+        return f"read_file(f.{ext}) did not terminate within {LIMIT_S}s"
+    return None
+
+
+def _read_file_cases(ctx, fx):
+    """[(label, ext, bytes)]: every routed extension (registry keys and aliases) x content of another format, truncated /
+    mutated content, and short inputs that begin with another container's signature"""
+    from sharepoint2text.parsing import router
+    rng = ctx.rng
+    exts = sorted(set(router._EXTRACTOR_REGISTRY) | set(getattr(router, "_EXTENSION_ALIASES", {})))
+    small = [(n, d) for n, d in fx if len(d) <= 120_000]
+    magic = [b"PK\x03\x04", b"PK\x03\x04" + b"\x14\x00" * 40, b"\xd0\xcf\x11\xe0\xa1\xb1\x1a\xe1" + b"\x00" * 520, b"{\\rtf1 x}", b"%PDF-1.7\n%%EOF",
+             b"7z\xbc\xaf\x27\x1c\x00\x04", b"<html><p>x", b"From a@b Thu Jan  1 00:00:00 1970\n\nx\n", b"", b"\x00" * 64]
+    zips = [d for n, d in small if d[:4] == b"PK\x03\x04"]
+    cases = []
+    for ext in exts:
+        for mg in (magic if ctx.thorough else rng.sample(magic, 4) + [magic[0], magic[1]]):
+            cases.append((f"rf-magic:{mg[:6]!r}", ext, mg))
+        for _ in range(ctx.n(2, 10)):
+            name, data = rng.choice(small)
+            r = rng.random()
+            if r < 0.4:
+                kind, data2 = "same", data
+            elif r < 0.7 and zips:
+                z = rng.choice(zips)
+                kind, data2 = "zip-truncated", z[: rng.randint(5, max(6, len(z) - 1))]
+            else:
+                kind, data2 = (corpus.mutations(rng, name, data, small, 1) or [("same", data)])[0]
+            cases.append((f"rf-cross[{kind}]:{name}", ext, data2))
+    return cases
+
+
+def _read_file_stream(ctx, fx):
+    import hashlib
+    broken = []
+    nbad = 0
+    for label, ext, data in _read_file_cases(ctx, fx):
+        why = _read_file_once(ext, data)
+        ctx.case(("read_file", ext, hashlib.sha1(data).hexdigest()))
+        ctx.count(f"read_file/{label.split(':')[0].split('[')[0]}/{'bad' if why else 'ok-or-family'}")
+        if why:
+            nbad += 1
+            if nbad <= 6:
+                broken.append(Broken("correspondence", "c01.read_file", f"{label}: {why} (model: impossible)",
+                                     case={"kind": "read_file", "ext": ext, "label": label, "data_b64": base64.b64encode(data).decode()}))
+            if nbad >= 12:
+                break
     return broken
 
 
@@ -343,6 +410,7 @@ def correspondence(ctx):
     broken += _fault_injection(ctx, fx)
     broken += _attachments(ctx, fx)
     broken += _hostile_stream(ctx, fx)
+    broken += _read_file_stream(ctx, fx)
     broken += _cli_discipline(ctx, fx)
     return {"broken": broken, "violations": []}
 
@@ -369,6 +437,10 @@ def search(ctx, broken):
             why = _check_bytes(*c["extractor"], data)
             if why:
                 out.append(Violation(f"surface:{c['extractor'][1]}", why, {"kind": "bytes", "extractor": c["extractor"], "label": c["label"], "data_b64": c["data_b64"]}))
+        elif c.get("kind") == "read_file":
+            why = _read_file_once(c["ext"], base64.b64decode(c["data_b64"]))
+            if why:
+                out.append(Violation(f"surface:read_file", why, c))
         elif c.get("kind") == "inject":
             m, f = c["extractor"]
             fam_excs, other_excs = _exc_instances()
@@ -414,6 +486,12 @@ def search(ctx, broken):
             if len(out) >= 3:
                 break
     if not out:
+        for label, ext, data in _read_file_cases(ctx, fx):
+            why = _read_file_once(ext, data)
+            if why:
+                out.append(Violation("surface:read_file", why, {"kind": "read_file", "ext": ext, "label": label, "data_b64": base64.b64encode(data).decode()}))
+                break
+    if not out:
         for b in _cli_discipline(ctx, fx):
             c = b.case
             out.append(Violation("cli:discipline", b.detail, c))
@@ -424,6 +502,9 @@ def replay(ctx, payload):
     c = payload.get("replay", {})
     if c.get("kind") == "bytes":
         why = _check_bytes(*c["extractor"], base64.b64decode(c["data_b64"]))
+        return (why is None), why or "only family exceptions / results"
+    if c.get("kind") == "read_file":
+        why = _read_file_once(c["ext"], base64.b64decode(c["data_b64"]))
         return (why is None), why or "only family exceptions / results"
     if c.get("kind") == "inject":
         vs = search(ctx, [Broken("correspondence", "replay", "", case=c)])
